@@ -34,6 +34,7 @@ func c08Topologies(thorough bool) []*sysgen.Spec {
 	var out []*sysgen.Spec
 	add := func(s sysgen.Spec) { c := s; out = append(out, &c) }
 	add(sysgen.Spec{Name: "1p-4c-2t", Packages: 1, CoresPerNode: 4, Threads: 2})
+	add(sysgen.Spec{Name: "no-system", Packages: 1, CoresPerNode: 4, Threads: 2})
 	add(sysgen.Spec{Name: "1p-4c-2t-adj", Packages: 1, CoresPerNode: 4, Threads: 2, AdjacentHT: true})
 	add(sysgen.Spec{Name: "2p-2c-2t", Packages: 2, CoresPerNode: 2, Threads: 2})
 	add(sysgen.Spec{Name: "2p-2n-2c", Packages: 2, NodesPerDie: 2, CoresPerNode: 2, Threads: 1})
@@ -47,6 +48,10 @@ func c08Topologies(thorough bool) []*sysgen.Spec {
 	// last-level caches that split every package into two groups of two cores (a group is neither a core, a die nor a
 	// package): the cache-group stage runs with groups in two packages
 	add(sysgen.Spec{Name: "2p-2n-2c-l3node", Packages: 2, NodesPerDie: 2, CoresPerNode: 2, Threads: 1, L3: "node"})
+	// clusters / L2 cache groups in two dies of one package, and in two packages: the tie-breaking on die and package of the
+	// cluster and cache-group sorters runs (coverage.sh showed those branches were never taken)
+	add(sysgen.Spec{Name: "1p-2d-4c-cl2", Packages: 1, Dies: 2, CoresPerNode: 4, Threads: 1, ClusterCores: 2, L2PerCluster: true, L3: "die"})
+	add(sysgen.Spec{Name: "2p-4c-cl2-hybrid", Packages: 2, CoresPerNode: 4, Threads: 1, ClusterCores: 2, L2PerCluster: true, L3: "package", ECores: []int{3, 7}})
 	// hybrid and clustered across two packages: the cluster stage runs with candidate sets that span packages
 	add(sysgen.Spec{Name: "2p-hybrid-clusters", Packages: 2, CoresPerNode: 4, Threads: 1, ClusterCores: 2, L2PerCluster: true, L3: "package", ECores: []int{2, 3, 6, 7}})
 	{
@@ -137,6 +142,9 @@ func TestVerifC08(t *testing.T) {
 		build := func(policy int32, rot int32) CPUAllocator {
 			atomic.StoreInt32(&mapiter.Policy, policy)
 			atomic.StoreInt32(&mapiter.RotateBy, rot)
+			if spec.Name == "no-system" {
+				return NewCPUAllocator(nil) // the allocator without topology information (takeAny)
+			}
 			sys, err := sysfs.DiscoverSystemAt(filepath.Join(root, "sys"))
 			if err != nil {
 				t.Fatalf("discover %s: %v", spec.Name, err)
